@@ -107,11 +107,33 @@ fn cmd_run(args: &[String]) -> i32 {
             eprintln!("harness error: cannot read model {p}: {e}");
             std::process::exit(2)
         });
+        c04::BIG_MODEL.store(true, std::sync::atomic::Ordering::Relaxed);
         bn.to_string()
     });
     let _ = std::fs::create_dir_all(&sandbox);
     let mut out = std::io::BufWriter::new(std::fs::File::create(out_path).expect("out file"));
     let start = Instant::now();
+    // wall-clock cap per run: an evaluation cannot be interrupted, so a run that exceeds the cap ends
+    // this worker (its remaining indices are simply not explored); the run is recorded as abandoned,
+    // never as a verdict
+    let run_cap_ms = arg_u64(args, "--run-cap-ms", 60_000);
+    let current: std::sync::Arc<std::sync::atomic::AtomicU64> = std::sync::Arc::new(std::sync::atomic::AtomicU64::new(u64::MAX));
+    let current_idx: std::sync::Arc<std::sync::atomic::AtomicU64> = std::sync::Arc::new(std::sync::atomic::AtomicU64::new(0));
+    {
+        let current = current.clone();
+        let current_idx = current_idx.clone();
+        let side = format!("{out_path}.abandoned");
+        std::thread::spawn(move || {
+            loop {
+                std::thread::sleep(Duration::from_millis(250));
+                let began = current.load(std::sync::atomic::Ordering::Relaxed);
+                if began != u64::MAX && (start.elapsed().as_millis() as u64).saturating_sub(began) > run_cap_ms {
+                    let _ = std::fs::write(&side, format!("{}\n", current_idx.load(std::sync::atomic::Ordering::Relaxed)));
+                    unsafe { libc::_exit(0) };
+                }
+            }
+        });
+    }
     let mut done = 0u64;
     let mut idx = worker;
     while done < max_runs && start.elapsed() < Duration::from_millis(time_ms) {
@@ -119,6 +141,8 @@ fn cmd_run(args: &[String]) -> i32 {
         let case = Case::generate(&prop, rs, &tier, model_text.as_deref());
         let hash_seed = prng::Rng::new(rs).fork("run.hash").next_u64();
         let t0 = Instant::now();
+        current_idx.store(idx, std::sync::atomic::Ordering::Relaxed);
+        current.store(start.elapsed().as_millis() as u64, std::sync::atomic::Ordering::Relaxed);
         let rep = match run_case(&case, hash_seed, &sandbox) {
             Ok(r) => r,
             Err(e) => {
@@ -127,6 +151,8 @@ fn cmd_run(args: &[String]) -> i32 {
                 return 2;
             }
         };
+        // minimisation of a violation is bounded by its own budget, not by the run cap
+        current.store(u64::MAX, std::sync::atomic::Ordering::Relaxed);
         let mut line = json!({"i": idx, "run_seed": rs, "hash_seed": hash_seed, "report": rep.to_json(), "ms": t0.elapsed().as_millis() as u64});
         if done < samples {
             line["sample"] = case.to_json();
@@ -175,6 +201,7 @@ fn cmd_run(args: &[String]) -> i32 {
             }
         } else {
             let _ = writeln!(out, "{line}");
+            let _ = out.flush();
         }
         done += 1;
         idx += workers;
